@@ -458,7 +458,7 @@ func (vc *VC) alloc(fr *Frame, st *State, a *ssa.Alloc) {
 		vc.setVal(fr, a, Val{P: p})
 		return
 	}
-	if vc.allocIsLocal(a) {
+	if vc.allocIsLocal(a) && !isBigFloat(t) { // (a big.Float has auxiliary state keyed by its reference)
 		comp := fmt.Sprintf("L:f%d.%s", fr.id, a.Name())
 		vc.registerComp(comp, vc.sortOf(t))
 		p := &Place{Kind: BLocal, Comp: comp, Root: t, Typ: t}
@@ -485,6 +485,7 @@ func (vc *VC) initAux(st *State, t types.Type, ref Term) {
 		vc.registerComp(comp, sortArray(sortRef, sortInt))
 		h := vc.heapGet(st.heap, comp)
 		st.heap.known[comp] = vc.define(comp, tStore(h, ref, mk("0", sortInt)))
+		vc.written[comp] = true
 	}
 }
 
